@@ -38,15 +38,16 @@ Qed.
 (* Every face is a function of the same per-pickle rank [rank_of]. *)
 Theorem C10_faces_agree : forall thr ps first, wf thr -> Forall (Forall wf) ps -> Forall wf first ->
   face_is_likely_safe first = (rank_of first =? 0) /\
+  face_bool first = (rank_of first =? 0) /\
   face_loader_raises thr first = (doc_rank thr <? rank_of first) /\
   (face_cli_exit ps = 0 <-> forall p, In p ps -> rank_of p = 0) /\
   (face_cli_exit ps = 0 \/ face_cli_exit ps = 1) /\
   face_json ps = map (fun p => sev_name (severity p)) ps.
 Proof.
   intros thr ps first Ht Hps Hf.
-  exact (conj (face_ils_spec first Hf) (conj (face_loader_spec thr first Ht Hf)
+  exact (conj (face_ils_spec first Hf) (conj (face_bool_spec first Hf) (conj (face_loader_spec thr first Ht Hf)
         (conj (proj1 (face_cli_spec ps Hps)) (conj (proj2 (face_cli_spec ps Hps))
-        (face_json_spec ps))))).
+        (face_json_spec ps)))))).
 Qed.
 
 (* non-vacuity: the hypotheses are met by concrete, non-trivial findings *)
